@@ -2,6 +2,7 @@
 package c12
 
 import (
+	"strings"
 	"encoding/hex"
 	"errors"
 	"fmt"
@@ -248,6 +249,21 @@ func msgDigest(h host, m any) string {
 		}
 	}
 	return corpus.Digest(m) + ext
+}
+
+// extDigest is the extension part of msgDigest: presence and value of every extension of the host, as the
+// owning runtime reports them.
+func extDigest(h host, m any) string {
+	ext := ""
+	for _, e := range h.exts {
+		has := rtHas(h, m, e)
+		ext += fmt.Sprintf("|%s:%v", e.name, has)
+		if has {
+			v, _ := rtGet(h, m, e)
+			ext += "=" + dig(v)
+		}
+	}
+	return ext
 }
 
 var errCallback = errors.New("range callback failed on purpose")
@@ -505,6 +521,70 @@ func (s *sim) opRoundTrip(t *rapid.T) {
 	}
 }
 
+// opCsMarshal marshals the message with csproto.Marshal (the generated code for the example hosts, which reads
+// the extensions through GetExtension) and lets the owning runtime read the bytes back: the extensions it finds
+// must be the ones the runtime reports on the message itself. The message then continues as the decoded copy.
+func (s *sim) opCsMarshal(t *rapid.T) {
+	for _, e := range s.h.exts {
+		if strings.HasPrefix(e.name, "dyn_") && rtHas(s.h, s.m, e) {
+			// an extension declared outside the generator's input is not written by the generated Marshal at all
+			// (C05-class, pure input); the step is only taken while none of those is set
+			s.w.Probe("csmarshal_skipped_extension_unknown_to_generator_is_set")
+			return
+		}
+	}
+	var b []byte
+	var err error
+	func() {
+		defer func() {
+			if p := recover(); p != nil {
+				if rep.IsChoicePanic(p) {
+					panic(p)
+				}
+				err = fmt.Errorf("panic: %v", p)
+			}
+		}()
+		b, err = csproto.Marshal(s.m)
+	}()
+	s.w.Step("csproto.Marshal -> %d bytes, err=%v; read back by the owning runtime", len(b), err)
+	if err != nil {
+		if errors.Is(err, csproto.ErrMarshaler) {
+			s.w.Probe("csmarshal_no_arm_for_host")
+			return
+		}
+		// the hosts have every required field set and only well-formed extension values are ever stored
+		s.viol("marshal-with-extensions-fails", "csproto.Marshal: %v (extensions %s)", err, extDigest(s.h, s.m))
+		return
+	}
+	n := s.h.new()
+	if r, isR := n.(interface{ Reset() }); isR {
+		r.Reset()
+	}
+	var rerr error
+	func() {
+		defer func() {
+			if p := recover(); p != nil {
+				if rep.IsChoicePanic(p) {
+					panic(p)
+				}
+				rerr = fmt.Errorf("panic: %v", p)
+			}
+		}()
+		rerr = rtUnmarshal(s.h, b, n)
+	}()
+	if rerr != nil {
+		s.viol("marshal-with-extensions-unreadable", "the owning runtime rejects csproto.Marshal's output %x: %v", b, rerr)
+		return
+	}
+	s.judged++
+	if got, want := extDigest(s.h, n), extDigest(s.h, s.m); got != want {
+		s.viol("marshaled-extensions-differ", "extensions after csproto.Marshal + runtime Unmarshal: %s, on the message: %s (bytes %x)", got, want, b)
+		return
+	}
+	s.w.Probe("csmarshal_roundtrip")
+	s.m = n
+}
+
 // opTypedNil passes a typed nil pointer of the host's Go type to an accessor. What the runtimes do with a
 // nil message is their business (not judged, panics recovered); the point is that it must not change how
 // real messages of that type are treated afterwards.
@@ -600,7 +680,7 @@ func runC12(t *rapid.T, w *rep.Worker) {
 	csproto.VerifResetTypeCaches() // every run starts with an empty process-wide type cache
 	t.Repeat(map[string]func(*rapid.T){
 		"set": s.opSet, "set2": s.opSet, "hasget": s.opHasGet, "hasget2": s.opHasGet, "clear": s.opClear, "clearall": s.opClearAll,
-		"range": s.opRange, "number": s.opNumber, "typednil": s.opTypedNil, "otherdynamic": s.opOtherDynamic, "roundtrip": s.opRoundTrip, "mismatch": s.opMismatch,
+		"range": s.opRange, "number": s.opNumber, "typednil": s.opTypedNil, "otherdynamic": s.opOtherDynamic, "roundtrip": s.opRoundTrip, "csmarshal": s.opCsMarshal, "mismatch": s.opMismatch,
 		"": func(t *rapid.T) {
 			w.State(fmt.Sprintf("%s|set=%d", h.runtime, len(s.model)))
 			if sig := w.Pending(); sig != "" {
